@@ -483,4 +483,41 @@ theorem rcont2_no_ub (nrowt ncolt : List Nat) (picks : List (List Int)) :
       cases hrec : rowsLoop startCell (↑nrowt.sum) (↑nrowt.sum) 0 (ncolt.map Int.ofNat).dropLast (nrowt.map Int.ofNat).dropLast picks with
       | error e => rw [hrec] at this; simpa using this
       | ok t => simp
+theorem canIncr_of_le (ia id : Int) : ∀ (n : Nat) (a : Int), a + n ≤ ia → a + n ≤ id → canIncr ia id a n = true
+  | 0, _, _, _ => rfl
+  | n + 1, a, h1, h2 => by
+    push_cast at h1 h2
+    simp only [canIncr, Bool.and_eq_true, decide_eq_true_eq]
+    refine ⟨?_, canIncr_of_le ia id n (a + 1) (by omega) (by omega)⟩
+    have h3 : 0 < id - a := by omega
+    have h4 : 0 < ia - a := by omega
+    exact (mul_pos h3 h4).ne'
+
+theorem canDecr_of_le (ii : Int) : ∀ (n : Nat) (a : Int), 0 ≤ a - n → 0 ≤ ii + a - n → canDecr ii a n = true
+  | 0, _, _, _ => rfl
+  | n + 1, a, h1, h2 => by
+    push_cast at h1 h2
+    simp only [canDecr, Bool.and_eq_true, decide_eq_true_eq]
+    refine ⟨?_, canDecr_of_le ii n (a - 1) (by omega) (by omega)⟩
+    have h3 : 0 < a := by omega
+    have h4 : 0 < ii + a := by omega
+    exact (mul_pos h3 h4).ne'
+
+/-- from a starting value inside the support the walk reaches exactly the support of the cell:
+`max(0, ia+id-ie) ≤ v ≤ min(ia, id)` (the support of the conditional hypergeometric law) -/
+theorem canReach_iff {ia id ii s v : Int} (h0 : 0 ≤ s) (h1 : 0 ≤ ii + s) (h2 : s ≤ ia) (h3 : s ≤ id) :
+    canReach ia id ii s v = true ↔ 0 ≤ v ∧ 0 ≤ ii + v ∧ v ≤ ia ∧ v ≤ id := by
+  constructor
+  · exact canReach_bound h0 h1 h2 h3
+  · rintro ⟨v0, v1, v2, v3⟩
+    unfold canReach
+    split
+    · rename_i hsv
+      apply canIncr_of_le
+      · rw [Int.toNat_of_nonneg (by omega)]; omega
+      · rw [Int.toNat_of_nonneg (by omega)]; omega
+    · rename_i hsv
+      apply canDecr_of_le
+      · rw [Int.toNat_of_nonneg (by omega)]; omega
+      · rw [Int.toNat_of_nonneg (by omega)]; omega
 end Bpp.Rand
